@@ -109,9 +109,18 @@ theorem elemLoop_spec (S : TxHS) (size : Nat) :
 `[start-1, bound)`, in position order, cut after `max_count` items -/
 theorem enum_window (S : TxHS) (start maxCount : Nat) (maxIdx : Option Nat) :
     (S.elementsFromPmmrIndex start maxCount maxIdx).2 =
-      ((List.range' (start - 1) (maxIdx.getD S.mmrSize - (start - 1))).filterMap S.getDataAt).take maxCount := by
+      ((List.range' (start - 1) (S.enumBound maxIdx - (start - 1))).filterMap S.getDataAt).take maxCount := by
   unfold elementsFromPmmrIndex
   exact elemLoop_spec S _ _ _ _ rfl
+
+/-- **a bound beyond the MMR is the MMR's size** (repair 565fae636: the loop no longer walks to the
+requested bound): any requested upper bound at or beyond the size gives the answer of no bound at
+all - same outputs, same position after the last one looked at, which is at most the size -/
+theorem enum_bound_clamped (S : TxHS) (start maxCount bound : Nat) (h : S.mmrSize ≤ bound) :
+    S.elementsFromPmmrIndex start maxCount (some bound) = S.elementsFromPmmrIndex start maxCount none := by
+  unfold elementsFromPmmrIndex enumBound
+  simp only [Nat.min_eq_right h]
+
 
 /-- where the loop stops: behind the last position it looked at, never beyond the bound when it
 started below it -/
@@ -248,7 +257,7 @@ theorem enum_all (S : TxHS) (start maxCount : Nat) (hs : start ≤ 1) (hc : S.le
   simp only
   rw [enum_window, unspentByPos_snd]
   have h0 : start - 1 = 0 := by omega
-  simp only [h0, Option.getD_none, Nat.sub_zero]
+  simp only [h0, enumBound, Nat.sub_zero]
   rw [scan_all]
   apply List.take_of_length_le
   calc _ ≤ (List.range S.leaves.length).length := List.length_filterMap_le _ _
